@@ -288,6 +288,7 @@ def cases(tier, seed):
 def run(ctx):
     from contracts import c_sim as cs
     ctx.verify(cs.engine(), cs.VERIFY, min_obligations={cs.VERIFY[0].key: 9})
+    ctx.verify(cs.dispatch_engine(), cs.VERIFY_DISPATCH, min_obligations={c.key: 8 for c in cs.VERIFY_DISPATCH})
     ctx.run_bounded("sim-inputs", cases(ctx.tier, ctx.seed), check_sim,
                     rule="Sims built procedurally, through add(), and class-defined, alone and in lists of 2-3 sharing "
                          "or not sharing a testbench; 1-6 attributes from all analysis types (sweep/Monte-Carlo nested "
